@@ -371,7 +371,7 @@ DurableConsistent ==
     /\ AllValidIn(dur.best, dur.blk, dur.sta)
     /\ SetsOf(dur.led) = SetsOf(FoldOf(dur.best))
     /\ dur.best[Len(dur.best)] \in seen
-CommitOnlyAtBoundary == [][dur' # dur => act'.op \in {"Finish", "MidFlush"}]_vars
+CommitOnlyAtBoundary == [][dur' # dur => act'.op \in {"Finish", "MidFlush", "Init"}]_vars
 
 (* C04 *)
 Contiguous ==
@@ -384,7 +384,7 @@ Contiguous ==
                               ELSE (from = 0 /\ aus[1] = 1) \/ (from # 0 /\ Par(aus[1]) = from))
                           /\ OnBest(aus[Len(aus)]))
         /\ (Len(rus) + Len(aus) < act'.max => subs'[act'.s] = mem)]_vars
-NotifyOnlyIfMoved == [][notif' # notif => CallEnds /\ mem' # pc.old /\ notif' = notif + 1]_vars
+NotifyOnlyIfMoved == [][notif' # notif /\ act'.op # "Init" => CallEnds /\ mem' # pc.old /\ notif' = notif + 1]_vars
 MovedImpliesNotify == [][CallEnds /\ mem' # pc.old /\ ret' = "ok" => notif' = notif + 1]_vars
 \* liveness: a subscriber that keeps polling while no blocks arrive reaches the tip
 CatchUp == \A s \in Subs : <>[](pc.k = "idle") => <>(subs[s] = mem)
